@@ -13,7 +13,8 @@
     G <templates|variables|types|status|console>        | <status> <count>
   Output lines:
     MISMATCH line=<n> case=<k> what=<result|log|grant|access> impl=<...> model=<...>
-    SPECFAIL line=<n> case=<k> clause=<name>
+    SPECFAIL line=<n> case=<k> clause=<name> [stale=1]     stale=1: a permission filter of the case reads `service`
+                                                           and the request is over Host and Service (shape of F-C18a)
     BADLINE line=<n>
     STATS cases=.. steps=.. ...
 -/
@@ -58,6 +59,24 @@ def parseTri (s : String) (n : Nat) : Option (List (Option Bool)) :=
 
 def mkTri (inv : List Obj) (tt : List (Option Bool)) : Obj → Option Bool :=
   fun o => ((inv.zip tt).lookup o).getD (some false)
+
+/-- permission-filter table: first row = each object alone; further rows (if any) = the hosts with `service`
+    bound to the k-th service of the inventory -/
+def parseRows (s : String) (n : Nat) : Option (List (List (Option Bool))) :=
+  (s.splitOn "/").mapM (parseTri · n)
+
+def mkPFilter (inv : List Obj) (rows : List (List (Option Bool))) : PFilter :=
+  fun b o =>
+    let r0 := rows.headD []
+    let row :=
+      if o.type == "Service" then r0 else
+      match b with
+      | none => r0
+      | some s =>
+        match (inv.filter (·.type == "Service")).findIdx? (· == s) with
+        | some i => (rows.drop 1).getD i r0
+        | none => r0
+    mkTri inv row o
 
 def showObj (o : Obj) : String := s!"{o.type}/{o.name}"
 
@@ -153,6 +172,11 @@ structure DSt where
   orderPairsMixed : Nat := 0     -- ... where the outcome was an error or the permission filter is not null
   inv : List Obj := []
   user : User := []
+  /-- some permission filter of the case reads `service` (F-C18a is possible) -/
+  readsService : Bool := false
+  /-- VERIF_C18_FRESH_FRAME=1: compare against the model of the repaired code (fresh permission frame per object) -/
+  freshFrame : Bool := false
+  staleSpecfails : Nat := 0
   caseNo : Nat := 0
   steps : Nat := 0
   nM : Nat := 0
@@ -229,8 +253,9 @@ def handleP (d : DSt) (n : Nat) (pre post : List String) : IO DSt := do
     if ast == "-" then
       return { d with user := d.user ++ [{ pattern := dec pat, filter := none }] }
     else
-      match parseBits tt d.inv.length with
-      | some bits => return { d with user := d.user ++ [{ pattern := dec pat, filter := some (mkPred d.inv bits) }] }
+      match parseRows tt d.inv.length with
+      | some rows => return { d with user := d.user ++ [{ pattern := dec pat, filter := some (mkPFilter d.inv rows) }],
+                                     readsService := d.readsService || rows.length > 1 }
       | none => bad d n
   | _, _ => bad d n
 
@@ -260,7 +285,9 @@ def handleQ (d : DSt) (n : Nat) (pre post : List String) : IO DSt := do
       match ires, ufilter, parseLog ilog with
       | some ires, some uf, some plog =>
         let q : Query := { q0 with typeValid := tv == "1", filter := uf }
-        let qd : QD := { types := types, permission := perm, cfgProvider := prov == "c" }
+        let qd : QD := { types := types, permission := perm, cfgProvider := prov == "c", sharedFrame := !d.freshFrame }
+        let stale := d.readsService && types.contains "Host" && types.contains "Service"
+        let tag := if stale then " stale=1" else ""
         let out := filterTargets d.user qd q d.inv
         let mut d := { d with steps := d.steps + 1, nQ := d.nQ + 1, caseHash := mixHash d.caseHash (hash (" ".intercalate pre)) }
         let ishow := showResult ires
@@ -275,7 +302,7 @@ def handleQ (d : DSt) (n : Nat) (pre post : List String) : IO DSt := do
         let obs : Obs := { result := ires, log := plog }
         match specQuery d.user qd q d.inv obs with
         | some cl =>
-          IO.println s!"SPECFAIL line={n} case={d.caseNo} clause={cl.name}"
+          IO.println s!"SPECFAIL line={n} case={d.caseNo} clause={cl.name}{tag}"
           d := { d with specfails := d.specfails + 1 }
         | none => pure ()
         -- visit-order independence, on the implementation's observations
@@ -286,7 +313,7 @@ def handleQ (d : DSt) (n : Nat) (pre post : List String) : IO DSt := do
           if !(permissionFilters d.user perm).isEmpty then d := { d with orderPairsMixed := d.orderPairsMixed + 1 }
           match specOrder prev ires with
           | some cl =>
-            IO.println s!"SPECFAIL line={n} case={d.caseNo} clause={cl.name}"
+            IO.println s!"SPECFAIL line={n} case={d.caseNo} clause={cl.name}{tag}"
             d := { d with specfails := d.specfails + 1 }
           | none => pure ()
         | none => d := { d with seenOutcomes := (key, ires) :: d.seenOutcomes }
@@ -314,8 +341,7 @@ def handleQ (d : DSt) (n : Nat) (pre post : List String) : IO DSt := do
           if nf > 0 then d := { d with permFiltered := d.permFiltered + 1 }
           if matching.length ≥ 2 then d := { d with multiMatch := d.multiMatch + 1 }
           if nf > 0 && nf < matching.length then d := { d with mixedMatch := d.mixedMatch + 1 }
-          let pf := permFilterFn d.user perm
-          let removed := d.inv.any (fun o => !pf o)
+          let removed := d.inv.any (fun o => pfIso (permissionFilters d.user perm) o != some true)
           let interesting := match ires with
             | .ok (_ :: _) => nf > 0 && removed
             | .error .denied => true
@@ -390,8 +416,13 @@ def handleH (d : DSt) (n : Nat) (pre post : List String) : IO DSt := do
         some (some { pred := mkTri d.inv bits, fast := fastNames })
     match verb?, ufilter, parseNat? status, parseObjs names with
     | some verb, some uf, some istatus, some iobjs =>
-      let q0 : Query := { plural := plural, filter := uf }
-      let qd := if isAction then actionQD verb else handlerQD verb type
+      let svcName : List (String × String) := match kvOf toks "sn" with
+        | some v => [("Service", dec v)]
+        | none => []
+      let q0 : Query := { single := svcName, plural := plural, filter := uf }
+      let qd0 := if isAction then actionQD verb else handlerQD verb type
+      let qd := { qd0 with sharedFrame := !d.freshFrame }
+      let tag := if d.readsService && isAction then " stale=1" else ""
       let q := if isAction then actionQuery type pathName q0 else handlerQuery type pathName q0
       let mres := (filterTargets d.user qd q d.inv).result
       let mstatus := if isAction then actionStatus mres else if verb == "delete" then deleteStatusNonApi mres else httpStatus mres
@@ -418,7 +449,7 @@ def handleH (d : DSt) (n : Nat) (pre post : List String) : IO DSt := do
       let bad := if withResults || istatus == 404 then specQuery d.user qd q d.inv obs else none
       match bad with
       | some cl =>
-        IO.println s!"SPECFAIL line={n} case={d.caseNo} clause={cl.name}"
+        IO.println s!"SPECFAIL line={n} case={d.caseNo} clause={cl.name}{tag}"
         d := { d with specfails := d.specfails + 1 }
       | none => pure ()
       if withResults || istatus == 404 then
@@ -428,7 +459,7 @@ def handleH (d : DSt) (n : Nat) (pre post : List String) : IO DSt := do
           d := { d with orderPairs := d.orderPairs + 1 }
           match specOrder prev obs.result with
           | some cl =>
-            IO.println s!"SPECFAIL line={n} case={d.caseNo} clause={cl.name}"
+            IO.println s!"SPECFAIL line={n} case={d.caseNo} clause={cl.name}{tag}"
             d := { d with specfails := d.specfails + 1 }
           | none => pure ()
         | none => d := { d with seenOutcomes := (key, obs.result) :: d.seenOutcomes }
@@ -485,7 +516,7 @@ def handle (d : DSt) (n : Nat) (line : String) : IO DSt := do
     match parseInv inv with
     | some objs =>
       let d := closeCase d
-      return { d with inv := objs, user := [], caseNo := d.caseNo + 1, caseHash := mixHash 7 (hash inv), seenOutcomes := [] }
+      return { d with inv := objs, user := [], readsService := false, caseNo := d.caseNo + 1, caseHash := mixHash 7 (hash inv), seenOutcomes := [] }
     | none => bad d n
   | "P" :: _ =>
     let d := { d with caseHash := mixHash d.caseHash (hash (" ".intercalate pre)), seenOutcomes := [] }
@@ -498,6 +529,7 @@ def handle (d : DSt) (n : Nat) (line : String) : IO DSt := do
 
 def main : IO Unit := do
   let stdin ← IO.getStdin
-  let d ← foldLines stdin handle ({} : DSt)
+  let fresh := (← IO.getEnv "VERIF_C18_FRESH_FRAME") == some "1"
+  let d ← foldLines stdin handle ({ freshFrame := fresh } : DSt)
   let d := closeCase d
   IO.println s!"STATS cases={d.caseNo} steps={d.steps} matches={d.nM} matches_granted={d.nMgranted} queries={d.nQ} access={d.nA} http={d.nH} http_200={d.h200} http_404={d.h404} http_actions={d.hActions} http_deletes={d.hDeletes} handlers={d.nG} handlers_200={d.g200} handlers_compared={d.gCompared} join_shown={d.hJoinShown} join_hidden={d.hJoinHidden} order_pairs={d.orderPairs} order_pairs_filtered={d.orderPairsMixed} ok_nonempty={d.okNonEmpty} ok_empty={d.okEmpty} err_perm={d.errPerm} err_denied={d.errDenied} err_notfound={d.errNotFound} err_type={d.errType} err_other={d.errOther} path_single={d.pathSingle} path_plural={d.pathPlural} path_filter_eval={d.pathFilterEval} path_fast={d.pathFast} path_all={d.pathAll} perm_filtered={d.permFiltered} multi_match={d.multiMatch} mixed_match={d.mixedMatch} filtered_out={d.filteredOut} nontrivial={d.nontrivial} mismatches={d.mismatches} specfails={d.specfails} badlines={d.badlines}"
